@@ -274,3 +274,28 @@ KEYWORDS = sorted(
     )
 )
 BENIGN = ["interface", "description", "mtu", "router", "bgp", "remote-as", "shutdown", "no", "vlan", "mode", "trunk", "allowed", "permit", "deny", "any", "log", "speed", "duplex", "Gi0/1", "line", "vty", "exec-timeout", "banner", "motd", "service", "timestamps", "debug", "uptime", "clock", "timezone", "UTC"]
+
+
+def extract_replacements(line, spans, out):
+    """Given the input line, the spans of its secret slots and the output line, return the list of
+    texts that replaced the slots, or None if the text around the slots was not kept."""
+    res = []
+    pos_i = pos_o = 0
+    for k, (a, b) in enumerate(spans):
+        lit = line[pos_i:a]
+        if out[pos_o : pos_o + len(lit)] != lit:
+            return None
+        pos_o += len(lit)
+        nxt = line[b : spans[k + 1][0]] if k + 1 < len(spans) else line[b:]
+        if k + 1 < len(spans):
+            j = out.find(nxt, pos_o + 1) if nxt else -1
+        else:
+            j = len(out) - len(nxt) if out.endswith(nxt) else -1
+        if j < pos_o:
+            return None
+        res.append(out[pos_o:j])
+        pos_o = j
+        pos_i = b
+    if out[pos_o:] != line[pos_i:]:
+        return None
+    return res
